@@ -26,7 +26,7 @@ ASSUMPTIONS = [
     "re-appending an existing member of a link list may keep or move its position",
 ]
 
-ENABLED = (ops.CREATE * 2 + ops.SETTERS * 2 + ops.LINKS + ops.DATA + ops.DELETE + ["force_ts", "flush"] + ["reopen"] * 8 + ["overwrite"] * 6)
+ENABLED = (ops.CREATE * 2 + ops.SETTERS * 2 + ops.LINKS + ops.DATA + ops.DELETE + ["force_ts", "flush"] + ["reopen"] * 8 + ["overwrite"] * 10 + ["relink"] * 12 + ["multi_append"] * 12)
 
 
 def keyify(path):
@@ -144,7 +144,7 @@ def run_case(case, ctx):
     if os.path.exists(path):
         os.remove(path)
     prog = (ops.rich_prefix() if case.get("rich") else []) + case["prog"]
-    it = Interp(path)
+    it = Interp(path, policy=case.get("policy", "fresh"))
     state = {"suspended": False, "checkpoints": 0}
     mutating = 0
     kinds = set()
@@ -178,7 +178,7 @@ def run_case(case, ctx):
             os.remove(path)
         except OSError:
             pass
-    classes = ["sweep" if len(case["prog"]) > 90 else ("rich" if case.get("rich") else "plain"), "refusals:%s" % ("0" if not raised else "1+"),
+    classes = ["handles:" + case.get("policy", "fresh"), "sweep" if len(case["prog"]) > 90 else ("rich" if case.get("rich") else "plain"), "refusals:%s" % ("0" if not raised else "1+"),
                "checkpoints:%d" % min(state["checkpoints"], 4)]
     for k, n in it.stats.items():
         if k.startswith("raised"):
@@ -192,12 +192,15 @@ def run_case(case, ctx):
 def case_strategy(max_ops):
     return st.fixed_dictionaries({
         "rich": st.booleans(),
-        "prog": ops.program(ENABLED, min_size=3, max_size=max_ops, name_pool=["a", "b", "sig", "sub", "ü"]),
+        "policy": st.sampled_from(["fresh", "cached", "two", "two"]),
+        "prog": ops.program(ENABLED, min_size=max(3, max_ops // 2), max_size=max_ops,
+                            name_pool=["a", "b", "sig", "sub", "ü"]),
     })
 
 
 def sweep_strategy():
-    return st.fixed_dictionaries({"rich": st.just(True), "prog": ops.attr_sweep()})
+    return st.fixed_dictionaries({"rich": st.just(True), "policy": st.sampled_from(["fresh", "cached", "two"]),
+                                  "prog": ops.attr_sweep()})
 
 
 def shards(tier, seed):
